@@ -38,6 +38,9 @@ pub fn gen(seed: u64, tier: Tier) -> ScenarioSpec {
     spec.sink = gen::gen_sink(&mut rng, false);
     spec.opts.compute_hash = rng.chance(1, 2);
     spec.compression = *rng.pick(&[Compression::None, Compression::Lz4, Compression::Zstd]);
+    if rng.chance(1, 5) {
+        spec.knobs.insert("prelude".into(), *rng.pick(&[1i64, 3]));
+    }
     spec
 }
 
@@ -52,6 +55,7 @@ pub fn run(spec: &ScenarioSpec, ctx: &mut Ctx) -> Result<(), Violation> {
         Compression::Lz4 => "compression LZ4",
         Compression::Zstd => "compression ZSTD",
     });
+    prelude(spec.knob("prelude"), spec.seed, &m, ctx);
     let Some(g1) = s1_read(P, spec, &m, ctx, true)? else { return Ok(()) };
     let h1 = g1.hash.clone();
     let q1 = g1.quirks.map_or(false, |q| q.double_game_end);
